@@ -17,9 +17,9 @@ EXTRA={
  'rpush': ['//@ ensures [C11] wakes: mutated ==> gWakeRequested == len(values) && gWakeKey == keyName', '//@ loopinv [C03] bounded: list != nil ==> list.count < (1<<56) + ri1', '//@ requires free sizes: len(values) < (1<<40)'],
  'lpushx': ['//@ ensures [C11] wakes: mutated ==> gWakeRequested == len(values) && gWakeKey == keyName', '//@ loopinv [C03] bounded: list != nil ==> list.count < (1<<56) + ri1', '//@ requires free sizes: len(values) < (1<<40)'],
  'rpushx': ['//@ ensures [C11] wakes: mutated ==> gWakeRequested == len(values) && gWakeKey == keyName', '//@ loopinv [C03] bounded: list != nil ==> list.count < (1<<56) + ri1', '//@ requires free sizes: len(values) < (1<<40)'],
- 'getListUnlocked': ['//@ ensures [C03] listwf: list != nil ==> listWF(list)', '//@ ensures [C03] listsize: list != nil ==> list.count < (1<<56)', '//@ use storeKey.getList.listwf'],
- 'ensureListUnlocked': ['//@ ensures [C03] listwf: list != nil ==> listWF(list)', '//@ ensures [C03] listsize: list != nil ==> list.count < (1<<56)', '//@ ensures [C03] nonnil: err == nil ==> list != nil', '//@ use storeKey.getList.listwf dataStoreCommand.getListUnlocked.listwf'],
- 'newListUnlocked': ['//@ ensures [C03] listwf: list != nil && listWF(list)', '//@ use storeKey.getList.listwf dataStoreCommand.getListUnlocked.listwf'],
+ 'getListUnlocked': ['//@ ensures [C03] listwf: list != nil ==> listWF(list)', '//@ ensures [C03] listsize: list != nil ==> list.count < (1<<56)', '//@ use storeKey.getList.listwf', '//@ include listsframe'],
+ 'ensureListUnlocked': ['//@ include listsframe', '//@ use dataStoreCommand.getListUnlocked.lists.kept dataStoreCommand.getListUnlocked.items.kept', '//@ ensures [C03] listwf: list != nil ==> listWF(list)', '//@ ensures [C03] listsize: list != nil ==> list.count < (1<<56)', '//@ ensures [C03] nonnil: err == nil ==> list != nil', '//@ use storeKey.getList.listwf dataStoreCommand.getListUnlocked.listwf'],
+ 'newListUnlocked': ['//@ include listsframe', '//@ use dataStoreCommand.getListUnlocked.lists.kept dataStoreCommand.getListUnlocked.items.kept', '//@ ensures [C03] listwf: list != nil && listWF(list)', '//@ use storeKey.getList.listwf dataStoreCommand.getListUnlocked.listwf'],
  'expire': ['//@ ensures internal [C07] table: exists ==> ((output.data == respInt(1)) == ((nx && !(old(sk.expiresAt) < maxTime)) || (!nx && xx && old(sk.expiresAt) < maxTime) || (!nx && !xx && gt && expiration > old(sk.expiresAt)) || (!nx && !xx && !gt && lt && expiration < old(sk.expiresAt)) || (!nx && !xx && !gt && !lt)))',
             '//@ ensures internal [C07] applied: exists && output.data == respInt(1) ==> sk.expiresAt == expiration',
             '//@ ensures internal [C07] kept: exists && output.data != respInt(1) ==> sk.expiresAt == old(sk.expiresAt)',
@@ -57,7 +57,26 @@ EXTRA={
             '//@ assertbefore "results = append(results, n)" [C18] get.value: (op.signed && n == specSignExtend(int64(specField(strBytes, op.bitOffset, op.width)), op.width)) || (!op.signed && uint64(n) == specField(strBytes, op.bitOffset, op.width))',
             '//@ ensures internal [C18] write.stored: gApplied ==> dsc.ds.data.vdom[keyName] && istype(dsc.ds.data.vval[keyName], *storeKey) && istype(unbox(dsc.ds.data.vval[keyName], *storeKey).payload, []byte) && len(unbox(unbox(dsc.ds.data.vval[keyName], *storeKey).payload, []byte)) >= length && flagHasOne(unbox(dsc.ds.data.vval[keyName], *storeKey).flags, FLAG_KEY_TYPE_STRING)',
             '//@ ensures internal [C18] write.expiry: gApplied && exists ==> unbox(dsc.ds.data.vval[keyName], *storeKey).expiresAt == old(sk.expiresAt)'],
- 'scan': ['//@ requires free tablesize: dictSized(dsc.ds.data)'],
+ 'lmove': ['//@ mode int', '//@ use *', '//@ ghostbefore "var item *listItem" : gSrcHead = srcList.head',
+            '//@ ghostbefore "var item *listItem" : gSrcTail = srcList.tail',
+            '//@ assertbefore "output.data = respBulkString(srcList.head.element)" [C03] rotate.single: srcKeyName == destKeyName && srcList.count == 1',
+            '//@ assertbefore "element := item.element" [C03] source.end: item == ite(srcLeft, gSrcHead, gSrcTail)',
+            '//@ assertbefore "dsc.lpushUnlocked(destKeyName, destList, element)" [C03] dest.left: destLeft',
+            '//@ assertbefore "dsc.rpushUnlocked(destKeyName, destList, element)" [C03] dest.right: !destLeft',
+            '//@ assertbefore "output.data = respBulkString(element)" [C03] moved.one: uk.elements == 1',
+            '//@ ghostbefore "var item *listItem" : gSrcCount = srcList.count',
+            '//@ ghostbefore "var item *listItem" : gDstCount = destList.count',
+            '//@ requires !gMoved',
+            '//@ ghostafter "uk.elements = 1" : gMoved = true',
+            '//@ ensures internal [C03] moved.counts: gMoved && srcList != destList ==> srcList.count == gSrcCount - 1 && destList.count == gDstCount + 1',
+            '//@ ensures internal [C03] rotated.count: gMoved && srcList == destList ==> srcList.count == gSrcCount',
+            '//@ ensures internal [C03] placed: gMoved ==> listWF(destList) && (destLeft ==> destList.seq[0].element == element) && (!destLeft ==> destList.seq[destList.count-1].element == element)',
+            '//@ ensures internal [C03] reply: gMoved ==> output.data == respBulkString(element)',
+            '//@ assertbefore "uk.elements = 1" [C03] taken: item == ite(srcLeft, gSrcHead, gSrcTail) && item.owner == nil && element == item.element',
+            '//@ ensures [C11] wake.one: gMoved ==> gWakeRequested == 1 && gWakeKey == destKeyName'],
+ 'scan': ['//@ requires free tablesize: dictSized(dsc.ds.data)', '//@ touches C17'],
+ 'hashTableScan': ['//@ touches C17'],
+ 'setScan': ['//@ touches C17'],
  'lmpop': ['//@ loop "for _, keyName := range keyNames" invariant [C06] nomut: !mutated'],
  'addInt': ['//@ ghostafter "value, err = strconv.ParseInt" : gParsed = value',
             '//@ ghostafter "value, err = strconv.ParseInt" : gParsedOK = (err == nil)',
